@@ -381,3 +381,23 @@ def bb_state(cmd):
             tuple(o["altstack"]) if o["altstack"] is not None else None,
             tuple(o["vfexec"]) if o["vfexec"] is not None else None,
             tuple(o["print"]) if o["print"] is not None else None)
+
+
+def parse_pane(out):
+    """the script|stack table printed after step / rewind / exec -> (left entries, right entries, lcap) or None"""
+    lines = out.decode(proto.L1).split("\n")
+    for i in range(len(lines) - 1):
+        if lines[i].startswith("script") and "| " in lines[i] and "-+-" in lines[i + 1] and set(lines[i + 1]) <= set("-+"):
+            lcap = lines[i + 1].index("-+-")
+            left, right = [], []
+            for row in lines[i + 2:]:
+                if len(row) < lcap + 2 or row[lcap + 1:lcap + 3] != "| ":
+                    break
+                l = row[:lcap + 1].rstrip()
+                r = row[lcap + 3:].strip()
+                if l:
+                    left.append(l)
+                if r:
+                    right.append(r)
+            return left, right, lcap
+    return None
